@@ -230,6 +230,96 @@ theorem gen_unsetBit_eq (d0 d1 d2 d3 b : Nat) (h0 : d0 < 256) (h1 : d1 < 256) (h
 example : isBitSet 0x200 9 = some true ∧ isBitSet 0x200 8 = some false ∧ isBitSet 0 32 = none := by decide
 example : setBit 0x80000000 0 = some 0x80000001 ∧ unsetBit 0x80000001 31 = some 1 ∧ setBit 1 0 = none := by decide
 
+/-! ### set_bit / unset_bit undo each other — on the translated code -/
+
+def tup (f : Nat → Nat) : Nat × Nat × Nat × Nat := (f 0, f 1, f 2, f 3)
+
+theorem isBitSetD_congr (d e : Nat → Nat) (h : ∀ k, k < 4 → d k = e k) (b : Nat) : isBitSetD d b = isBitSetD e b := by
+  unfold isBitSetD
+  rw [h 0 (by omega), h 1 (by omega), h 2 (by omega), h 3 (by omega)]
+
+theorem upd_tup_congr (d e : Nat → Nat) (h : ∀ k, k < 4 → d k = e k) (j v w : Nat) (_hj : j < 4) (hv : v = w) :
+    tup (upd d j v) = tup (upd e j w) := by
+  subst hv
+  simp only [tup, upd]
+  rw [h 0 (by omega), h 1 (by omega), h 2 (by omega), h 3 (by omega)]
+
+/-- the bit operations read and write the four data bytes only -/
+theorem unsetBitD_congr (d e : Nat → Nat) (h : ∀ k, k < 4 → d k = e k) (b : Nat) :
+    (unsetBitD d b).map tup = (unsetBitD e b).map tup := by
+  unfold unsetBitD
+  rw [isBitSetD_congr d e h b]
+  cases hb : isBitSetD e b with
+  | none => rfl
+  | some v =>
+    have hlt := isBitSetD_some_lt _ _ _ hb
+    cases v
+    · rfl
+    · simp only [Option.map]
+      have hj : 3 - b / 8 < 4 := by omega
+      rw [upd_tup_congr d e h _ _ _ hj (by rw [h _ hj])]
+
+theorem acc4_tup (f : Nat → Nat) : ∀ k, k < 4 → acc4 (f 0) (f 1) (f 2) (f 3) k = f k := by
+  intro k hk
+  have : k = 0 ∨ k = 1 ∨ k = 2 ∨ k = 3 := by omega
+  rcases this with rfl | rfl | rfl | rfl <;> simp [acc4]
+
+theorem word_acc4_inj (d0 d1 d2 d3 e0 e1 e2 e3 : Nat) (_h0 : d0 < 256) (h1 : d1 < 256) (h2 : d2 < 256) (h3 : d3 < 256)
+    (_g0 : e0 < 256) (g1 : e1 < 256) (g2 : e2 < 256) (g3 : e3 < 256)
+    (h : word (acc4 d0 d1 d2 d3) = word (acc4 e0 e1 e2 e3)) : (d0, d1, d2, d3) = (e0, e1, e2, e3) := by
+  simp only [word, acc4] at h
+  simp at h
+  have a0 : d0 = e0 := by omega
+  have a1 : d1 = e1 := by omega
+  have a2 : d2 = e2 := by omega
+  have a3 : d3 = e3 := by omega
+  simp [a0, a1, a2, a3]
+
+/-- CODE level (over the translation of `Unsigned32Type.set_bit` / `unset_bit`): if `set_bit(b)` succeeds on data
+    bytes d0..d3, then `unset_bit(b)` on the result succeeds and gives back exactly d0..d3 -/
+theorem code_set_unset_roundtrip (d0 d1 d2 d3 b : Nat) (h0 : d0 < 256) (h1 : d1 < 256) (h2 : d2 < 256) (h3 : d3 < 256)
+    (e : Nat × Nat × Nat × Nat) (hs : Gen.setBit d0 d1 d2 d3 b = some e) :
+    Gen.unsetBit e.1 e.2.1 e.2.2.1 e.2.2.2 b = some (d0, d1, d2, d3) := by
+  have hd : ∀ k, k < 4 → acc4 d0 d1 d2 d3 k < 256 := by
+    intro k hk
+    have : k = 0 ∨ k = 1 ∨ k = 2 ∨ k = 3 := by omega
+    rcases this with rfl | rfl | rfl | rfl <;> simp [acc4, h0, h1, h2, h3]
+  rw [gen_setBit_eq d0 d1 d2 d3 b h0 h1 h2 h3] at hs
+  cases hset : setBitD (acc4 d0 d1 d2 d3) b with
+  | none => rw [hset] at hs; cases hs
+  | some d' =>
+    rw [hset] at hs
+    simp only [Option.map, Option.some.injEq] at hs
+    subst hs
+    have hb : b < 32 := by
+      unfold setBitD at hset
+      cases hi : isBitSetD (acc4 d0 d1 d2 d3) b with
+      | none => rw [hi] at hset; cases hset
+      | some v => exact isBitSetD_some_lt _ _ _ hi
+    have hclear : (word (acc4 d0 d1 d2 d3)).testBit b = false := by
+      cases hc : (word (acc4 d0 d1 d2 d3)).testBit b with
+      | false => rfl
+      | true => rw [(bit_errors_redundant _ hd b hb).1 hc] at hset; cases hset
+    obtain ⟨d1', d'', hs1, hs2, hw⟩ := bit_set_unset_roundtrip _ hd b hb hclear
+    rw [hset] at hs1
+    cases hs1
+    obtain ⟨_, hs1', hd', _⟩ := bit_set_exact _ hd b hb hclear
+    rw [hset] at hs1'; cases hs1'
+    have hset' : (word d').testBit b = true := by
+      obtain ⟨_, q, _, ht⟩ := bit_set_exact _ hd b hb hclear
+      rw [hset] at q; cases q
+      rw [ht b hb]; simp
+    obtain ⟨_, hu, hd'', _⟩ := bit_unset_exact d' hd' b hb hset'
+    rw [hs2] at hu; cases hu
+    show Gen.unsetBit (d' 0) (d' 1) (d' 2) (d' 3) b = _
+    rw [gen_unsetBit_eq _ _ _ _ b (hd' 0 (by omega)) (hd' 1 (by omega)) (hd' 2 (by omega)) (hd' 3 (by omega))]
+    have hc := unsetBitD_congr (acc4 (d' 0) (d' 1) (d' 2) (d' 3)) d' (acc4_tup d') b
+    show Option.map tup _ = _
+    rw [hc, hs2]
+    simp only [Option.map, Option.some.injEq, tup]
+    have hw' : word (acc4 (d'' 0) (d'' 1) (d'' 2) (d'' 3)) = word (acc4 d0 d1 d2 d3) := by
+      rw [← hw]; simp [word, acc4]
+    exact word_acc4_inj _ _ _ _ _ _ _ _ (hd'' 0 (by omega)) (hd'' 1 (by omega)) (hd'' 2 (by omega)) (hd'' 3 (by omega)) h0 h1 h2 h3 hw'
 end BV.C20
 
 /-! ### Address -/
